@@ -32,7 +32,7 @@ theorem once_step_quiet (s : OnceSt) (c : Call) (r : c.Resp) (hw : c.isWrite = f
 
 /-- **the side-effect code never touches the response**: a program that satisfies the lock judgement in quiet
 mode (no ResponseWriter call, no authentication call) leaves the write monitor where it was -/
-theorem quiet_keeps {re : Bool} {H Hv He : List Iri} {p : Prog α} (h : Lk re false H p Hv He) (s : OnceSt) :
+theorem quiet_keeps {re : Bool} {ad : J → Bool} {H Hv He : List Iri} {p : Prog α} (h : Lk re false ad H p Hv He) (s : OnceSt) :
     Oc s p (fun s' _ => s' = s) := by
   unfold Lk at h
   induction p generalizing H with
@@ -48,7 +48,7 @@ theorem quiet_keeps {re : Bool} {H Hv He : List Iri} {p : Prog α} (h : Lk re fa
       cases hw : c.isWrite <;> cases ha : c.isAuth <;> simp
     rw [once_step_quiet s c r hq.1 hq.2]
     revert hr
-    cases hstep : (lockMonG re false).step H c r with
+    cases hstep : (lockMonG re false ad).step H c r with
     | none => intro hr; exact hr.elim
     | some H' => intro hr; exact ih r hr
 
@@ -57,8 +57,8 @@ theorem Oc.bind {s : OnceSt} {p : Prog α} {f : α → Prog β} {Q : OnceSt → 
   SafeP.bind h
 
 /-- sequencing after a quiet program -/
-theorem Oc.afterQuiet {re : Bool} {H Hv He : List Iri} {s : OnceSt} {p : Prog α} {f : α → Prog β}
-    {Q : OnceSt → Option β → Prop} (hp : Lk re false H p Hv He) (hf : ∀ a, Oc s (f a) Q) (he : Q s none) :
+theorem Oc.afterQuiet {re : Bool} {ad : J → Bool} {H Hv He : List Iri} {s : OnceSt} {p : Prog α} {f : α → Prog β}
+    {Q : OnceSt → Option β → Prop} (hp : Lk re false ad H p Hv He) (hf : ∀ a, Oc s (f a) Q) (he : Q s none) :
     Oc s (p >>= f) Q := by
   apply Oc.bind
   apply SafeP.mono (quiet_keeps hp s)
@@ -68,8 +68,8 @@ theorem Oc.afterQuiet {re : Bool} {H Hv He : List Iri} {s : OnceSt} {p : Prog α
   | none => exact he
   | some a => exact hf a
 
-theorem Oc.afterQuietTry {re : Bool} {H Hv He : List Iri} {s : OnceSt} {p : Prog α} {f : E α → Prog β}
-    {Q : OnceSt → Option β → Prop} (hp : Lk re false H p Hv He) (hf : ∀ r, Oc s (f r) Q) :
+theorem Oc.afterQuietTry {re : Bool} {ad : J → Bool} {H Hv He : List Iri} {s : OnceSt} {p : Prog α} {f : E α → Prog β}
+    {Q : OnceSt → Option β → Prop} (hp : Lk re false ad H p Hv He) (hf : ∀ r, Oc s (f r) Q) :
     Oc s (Prog.try_ p >>= f) Q := by
   apply Oc.bind
   apply SafeP.try_
@@ -166,7 +166,7 @@ theorem getOutbox (r : Request) : OnceClean (getOutboxH r) := by
       | ok b =>
         cases hr
         show Oc s' (Op.appGetOutbox >>= fun oc => respond 200 oc) _
-        exact Oc.afterQuiet (re := true) (H := []) Lk.appGetOutbox (fun oc => oc_respond hs' _ _) (end_fail hs')
+        exact Oc.afterQuiet (re := true) (ad := anyPayload) (H := []) Lk.appGetOutbox (fun oc => oc_respond hs' _ _) (end_fail hs')
     · intro r hr; cases r with
       | error e => cases hr
       | ok b => cases hr; rfl
@@ -190,8 +190,8 @@ theorem getInbox (F : TFacts) (cfg : BaseCfg) (r : Request) : OnceClean (getInbo
         show Oc s' (viaS2S cfg _ Op.appGetInbox >>= fun oc => dedupeOrderedItems F oc >>= fun oc => respond 200 oc) _
         unfold viaS2S
         split
-        · refine Oc.afterQuiet (re := true) (H := []) Lk.appGetInbox (fun oc => ?_) (end_fail hs')
-          exact Oc.afterQuiet (re := true) (H := []) (dedupeOrderedItems_ok F oc) (fun oc => oc_respond hs' _ _) (end_fail hs')
+        · refine Oc.afterQuiet (re := true) (ad := anyPayload) (H := []) Lk.appGetInbox (fun oc => ?_) (end_fail hs')
+          exact Oc.afterQuiet (re := true) (ad := anyPayload) (H := []) (dedupeOrderedItems_ok F oc) (fun oc => oc_respond hs' _ _) (end_fail hs')
         · trivial
     · intro r hr; cases r with
       | error e => cases hr
@@ -206,7 +206,7 @@ theorem handler (F : TFacts) (r : Request) : OnceClean (Pub.handler F r) := by
   unfold Pub.handler
   split
   · exact end_notHandled fresh_init
-  · refine Oc.afterQuiet (re := true) (H := []) (Lk.locked (by simp) (Lk.get (by simp) _)) (fun res => ?_) (end_fail fresh_init)
+  · refine Oc.afterQuiet (re := true) (ad := anyPayload) (H := []) (Lk.locked (by simp) (Lk.get (by simp) _)) (fun res => ?_) (end_fail fresh_init)
     split
     · exact end_fail (nh := isNotHandled) fresh_init
     · exact oc_respond fresh_init _ _
@@ -303,13 +303,13 @@ theorem postInbox (F : TFacts) (cfg : BaseCfg) (r : Request) : OnceClean (postIn
                     apply oc_authorize F _ hs'
                     · rfl
                     · show Oc s' (Prog.try_ (Pub.postInbox F (fedCbFull F) r.box _) >>= _) _
-                      apply Oc.afterQuietTry (re := true) (H := []) (postInbox_ok F _ _)
+                      apply Oc.afterQuietTry (re := true) (ad := anyPayload) (H := []) (postInbox_ok F _ _ (fun _ => rfl))
                       intro res
                       split
                       · exact oc_status hs' _
                       · exact oc_status hs' _
                       · exact end_fail (nh := isNotHandled) hs'
-                      · exact Oc.afterQuiet (re := false) (H := []) (inboxForwarding_ok F _ _) (fun _ => oc_status hs' _) (end_fail (nh := isNotHandled) hs')
+                      · exact Oc.afterQuiet (re := false) (ad := anyPayload) (H := []) (inboxForwarding_ok F _ _ rfl) (fun _ => oc_status hs' _) (end_fail (nh := isNotHandled) hs')
         · intro r0 hr; cases r0 with
           | error e => cases hr
           | ok b => cases hr; rfl
@@ -347,7 +347,7 @@ theorem postOutbox (F : TFacts) (cfg : BaseCfg) (r : Request) : OnceClean (postO
               | error e => exact end_fail (nh := isNotHandled) hs'
               | ok _ =>
                 show Oc s' (Prog.try_ (deliver F cfg r.box _ _) >>= _) _
-                apply Oc.afterQuietTry (re := true) (H := []) (deliver_ok F cfg _ _ _)
+                apply Oc.afterQuietTry (re := true) (ad := anyPayload) (H := []) (deliver_ok F cfg _ _ _ (fun _ => rfl))
                 intro res
                 split
                 · exact oc_status hs' _
